@@ -31,8 +31,6 @@ const prop = "C04"
 // drops counts the messages the library reports as dropped (queue overflow).
 var drops = &netkit.DropLog{}
 
-const overflowClass = "C04:server-queue-overflow"
-
 func TestMain(m *testing.M) {
 	log.SetOutput(drops)
 	vt.Main(m)
@@ -62,19 +60,7 @@ func genCase(t *rapid.T) Case {
 	}
 	nsess := rapid.IntRange(1, 3).Draw(t, "sessions")
 	for s := 0; s < nsess; s++ {
-		// known finding (load shedding): more than 10 messages in flight on one
-		// connection may be refused. While it is listed a session has at most 4
-		// callers (a call and its cancel request: 8 messages) and posts are paced
-		// (see checkCase).
-		maxg := 6
-		if vt.Known(overflowClass) {
-			maxg = 4
-		}
 		ng := rapid.IntRange(1, 6).Draw(t, "goroutines")
-		if ng > maxg {
-			vt.Excluded(overflowClass)
-			ng = maxg
-		}
 		var gs [][]Op
 		for g := 0; g < ng; g++ {
 			n := rapid.IntRange(1, 6).Draw(t, "ops")
@@ -155,7 +141,6 @@ func checkCase(c Case) (verr error) {
 	defer raw.Close()
 
 	dropsBefore := drops.Count()
-	var postMu sync.Mutex
 	var recsMu sync.Mutex
 	var recs []*callRec
 	var postIDs sync.Map // message id -> tag
@@ -192,16 +177,7 @@ func checkCase(c Case) (verr error) {
 						id := raw.NextID()
 						postIDs.Store(id, tag)
 						rec.start = tick()
-						if vt.Known(overflowClass) {
-							// paced: the raw connection carries one post and the call
-							// which follows it, never a pile of posts
-							postMu.Lock()
-							raw.Send(netkit.Frame{Type: netkit.Post, ID: id, Service: tg.svcID, Object: tg.objectID, Action: 101, Payload: netkit.StringPayload("quiet:" + tag)})
-							raw.CallWait(tg.svcID, tg.objectID, 100, netkit.StringPayload("barrier"), bound)
-							postMu.Unlock()
-						} else {
-							raw.Send(netkit.Frame{Type: netkit.Post, ID: id, Service: tg.svcID, Object: tg.objectID, Action: 101, Payload: netkit.StringPayload("quiet:" + tag)})
-						}
+						raw.Send(netkit.Frame{Type: netkit.Post, ID: id, Service: tg.svcID, Object: tg.objectID, Action: 101, Payload: netkit.StringPayload("quiet:" + tag)})
 						rec.tag = "quiet:" + tag
 						rec.end = tick()
 						atomic.AddInt32(&rec.returned, 1)
@@ -249,28 +225,15 @@ func checkCase(c Case) (verr error) {
 	if atomic.LoadInt32(&hung) == 1 {
 		return vt.Violationf("C04:call-hangs", "a call did not return within %v", bound)
 	}
-	// load shedding: the library says so in its log and in the error text
-	shed := func() (bool, string) {
-		if n := drops.Count() - dropsBefore; n > 0 {
-			return true, fmt.Sprintf("the library logged %d dropped messages (consumer blocked)", n)
-		}
-		recsMu.Lock()
-		defer recsMu.Unlock()
-		for _, r := range recs {
-			if r.err != nil && strings.Contains(r.err.Error(), "consumer blocked") {
-				return true, fmt.Sprintf("call %s failed: %v", r.tag, r.err)
-			}
-		}
-		return false, ""
+	// Load shedding: when more messages are in flight on a connection than its
+	// queues hold, the server refuses a call with the error "message dropped:
+	// consumer blocked" (and drops posts). That is an outcome the property
+	// allows (exactly one outcome, the method run at most once); what it does
+	// not allow is any other failure on a healthy connection.
+	refused := func(r *callRec) bool {
+		return r.err != nil && strings.Contains(r.err.Error(), "consumer blocked")
 	}
-	if yes, what := shed(); yes {
-		if vt.Known(overflowClass) {
-			vt.Excluded(overflowClass)
-			vt.Case(false, "shed", "load-shed-case-not-judged")
-			return nil
-		}
-		return vt.Violationf(overflowClass, "with several concurrent callers per connection the server refused messages: %s", what)
-	}
+	shedCalls := 0
 	// raw phase: frames of every non-call type addressed to a live method
 	rawTags := map[string]uint8{}
 	for i, typ := range c.RawTypes {
@@ -283,6 +246,11 @@ func checkCase(c Case) (verr error) {
 	// it is answered, every earlier frame for that object has been processed)
 	for _, tg := range targets {
 		f, ok := raw.CallWait(tg.svcID, tg.objectID, 100, netkit.StringPayload("barrier"), bound)
+		// a barrier sent behind a pile of posts may itself be refused: again
+		for deadline := time.Now().Add(bound); ok && f.Type == netkit.Error && strings.Contains(netkit.ErrorText(f.Payload), "consumer blocked") && time.Now().Before(deadline); {
+			time.Sleep(time.Millisecond)
+			f, ok = raw.CallWait(tg.svcID, tg.objectID, 100, netkit.StringPayload("barrier"), bound)
+		}
 		if !ok || f.Type != netkit.Reply {
 			return vt.Violationf("C04:barrier", "barrier call on service %d object %d failed: %v", tg.svcID, tg.objectID, f)
 		}
@@ -305,6 +273,13 @@ func checkCase(c Case) (verr error) {
 			if atomic.LoadInt32(&r.returned) != 1 {
 				return vt.Violationf("C04:return-count", "call %s returned %d times", r.tag, r.returned)
 			}
+			if !r.ok && refused(r) {
+				shedCalls++
+				if n > 1 {
+					return vt.Violationf("C04:execution-count", "call %s was refused by the server (%v) but its method ran %d times", r.tag, r.err, n)
+				}
+				continue
+			}
 			if !r.ok {
 				return vt.Violationf("C04:call-failed", "call %s failed on a healthy connection: %v", r.tag, r.err)
 			}
@@ -317,6 +292,13 @@ func checkCase(c Case) (verr error) {
 		case "failcall":
 			if r.ok {
 				return vt.Violationf("C04:wrong-answer", "call %s returned success %q although the method failed", r.tag, r.result)
+			}
+			if refused(r) {
+				shedCalls++
+				if n > 1 {
+					return vt.Violationf("C04:execution-count", "call %s was refused by the server (%v) but its method ran %d times", r.tag, r.err, n)
+				}
+				continue
 			}
 			if n != 1 {
 				return vt.Violationf("C04:execution-count", "failed call %s: method ran %d times", r.tag, n)
@@ -367,6 +349,12 @@ func checkCase(c Case) (verr error) {
 		}
 	}
 	labels := []string{fmt.Sprintf("sessions=%d", len(c.Sessions)), fmt.Sprintf("objects=%d", len(targets))}
+	if shedCalls > 0 || drops.Count() > dropsBefore {
+		labels = append(labels, "server-shed-load")
+		if shedCalls > 0 {
+			vt.LabelN("calls-refused-by-load-shedding", int64(shedCalls))
+		}
+	}
 	if overlap {
 		labels = append(labels, "calls-overlapped-on-one-connection")
 	}
